@@ -231,6 +231,11 @@ func (r TLCRun) streamOne(par int, handle func(State)) (TLCStats, error) {
 			r.Consts["NParts"] = "1"
 			r.Consts["Part"] = "0"
 		}
+		if r.Module == "MC_Dec" {
+			if _, ok := r.Consts["ItemMode"]; !ok {
+				r.Consts["ItemMode"] = "\"all\""
+			}
+		}
 		if r.Module == "MC_E1" {
 			// replayers that do not read the specification's denotation skip its computation
 			// (and the model-level invariants over it, which the checks that do read it run)
